@@ -38,7 +38,7 @@ var (
 	c13NSigs   = []int{-1, 0, 1, 2, 3}
 	c13PubSets = [][]string{nil, {"K1"}, {"K1", "K2"}, {"K1", "K2", "K3"}}
 
-	c13Preimages = []string{"right", "wrong", "non-hex", "empty", "right-upper-case", "absent-witness", "garbage-json"}
+	c13Preimages = []string{"right", "wrong", "non-hex", "empty", "right-upper-case", "absent-witness", "garbage-json", "right+non-hex-suffix", "right+odd-digit", "right+space-text"}
 	c13SigKinds  = []string{"none", "one-listed-key", "foreign-key", "duplicate", "two-by-one-key", "threshold", "threshold-minus-1", "refund-key", "one-key-padded"}
 )
 
@@ -143,6 +143,12 @@ func c13PreimageText(kind string) string {
 		return ""
 	case "right-upper-case":
 		return strings.ToUpper(lkPreimageRight)
+	case "right+non-hex-suffix": // not a hex string at all, but a lenient decoder returns the right bytes before the error
+		return lkPreimageRight + "zz"
+	case "right+odd-digit":
+		return lkPreimageRight + "0"
+	case "right+space-text":
+		return lkPreimageRight + " any text"
 	}
 	return ""
 }
